@@ -5,6 +5,7 @@ package libschema
 
 import (
 	"fmt"
+	"math/big"
 	"regexp"
 	"sync/atomic"
 
@@ -751,17 +752,17 @@ func builtinLenLessThanOrEqual(_ *lisp.LEnv, args *lisp.LVal) *lisp.LVal {
 
 // Checks value is greater than specified value
 func builtinGreaterThan(_ *lisp.LEnv, args *lisp.LVal) *lisp.LVal {
-	comparison, ok := lisp.GoFloat64(args.Cells[0])
+	_, ok := lisp.GoFloat64(args.Cells[0])
 	if !ok {
 		return lisp.ErrorConditionf(FailedConstraint, "You cannot compare %v to a number", args.Cells[0])
 	}
 	// NB these aren't normal functions - they aren't looking for an array of args
 	return newValidator(lisp.Formals("input"), func(env *lisp.LEnv, input *lisp.LVal) *lisp.LVal {
-		compareTo, ok := lisp.GoFloat64(input)
+		_, ok := lisp.GoFloat64(input)
 		if !ok {
 			return lisp.ErrorConditionf(FailedConstraint, "Value cannot be compared")
 		}
-		if comparison >= compareTo {
+		if cmpNum(input, args.Cells[0]) <= 0 {
 			return lisp.ErrorConditionf(FailedConstraint, "Supplied value was less than the allowed value")
 		}
 		return lisp.Nil()
@@ -780,7 +781,7 @@ func builtinGreaterThanOrEqual(_ *lisp.LEnv, args *lisp.LVal) *lisp.LVal {
 		if !ok {
 			return lisp.ErrorConditionf(FailedConstraint, "Value cannot be compared")
 		}
-		if comparison > compareTo {
+		if cmpNum(input, args.Cells[0]) < 0 {
 			return lisp.ErrorConditionf(FailedConstraint, "Supplied value %v was less than the allowed value %v", compareTo, comparison)
 		}
 		return lisp.Nil()
@@ -789,17 +790,17 @@ func builtinGreaterThanOrEqual(_ *lisp.LEnv, args *lisp.LVal) *lisp.LVal {
 
 // Checks value is less than specified value
 func builtinLessThan(_ *lisp.LEnv, args *lisp.LVal) *lisp.LVal {
-	comparison, ok := lisp.GoFloat64(args.Cells[0])
+	_, ok := lisp.GoFloat64(args.Cells[0])
 	if !ok {
 		return lisp.ErrorConditionf(FailedConstraint, "You cannot compare %v to a number", args.Cells[0])
 	}
 	// NB these aren't normal functions - they aren't looking for an array of args
 	return newValidator(lisp.Formals("input"), func(env *lisp.LEnv, input *lisp.LVal) *lisp.LVal {
-		compareTo, ok := lisp.GoFloat64(input)
+		_, ok := lisp.GoFloat64(input)
 		if !ok {
 			return lisp.ErrorConditionf(FailedConstraint, "Value cannot be compared")
 		}
-		if comparison <= compareTo {
+		if cmpNum(input, args.Cells[0]) >= 0 {
 			return lisp.ErrorConditionf(FailedConstraint, "Supplied value was greater than the allowed value")
 		}
 		return lisp.Nil()
@@ -808,21 +809,56 @@ func builtinLessThan(_ *lisp.LEnv, args *lisp.LVal) *lisp.LVal {
 
 // Checks value is less than or equal specified value
 func builtinLessThanOrEqual(_ *lisp.LEnv, args *lisp.LVal) *lisp.LVal {
-	comparison, ok := lisp.GoFloat64(args.Cells[0])
+	_, ok := lisp.GoFloat64(args.Cells[0])
 	if !ok {
 		return lisp.ErrorConditionf(FailedConstraint, "You cannot compare %v to a number", args.Cells[0])
 	}
 	// NB these aren't normal functions - they aren't looking for an array of args
 	return newValidator(lisp.Formals("input"), func(env *lisp.LEnv, input *lisp.LVal) *lisp.LVal {
-		compareTo, ok := lisp.GoFloat64(input)
+		_, ok := lisp.GoFloat64(input)
 		if !ok {
 			return lisp.ErrorConditionf(FailedConstraint, "Value cannot be compared")
 		}
-		if comparison < compareTo {
+		if cmpNum(input, args.Cells[0]) > 0 {
 			return lisp.ErrorConditionf(FailedConstraint, "Supplied value was greater than the allowed value")
 		}
 		return lisp.Nil()
 	})
+}
+
+// cmpNum compares two numeric LVals exactly (no rounding through float64):
+// -1, 0 or +1 as a is less than, equal to or greater than b.  Comparing through
+// float64 made 9007199254740993 neither greater than nor different from
+// 9007199254740992.
+func cmpNum(a, b *lisp.LVal) int {
+	if a.Type == lisp.LInt && b.Type == lisp.LInt {
+		switch {
+		case a.Int < b.Int:
+			return -1
+		case a.Int > b.Int:
+			return 1
+		}
+		return 0
+	}
+	toRat := func(v *lisp.LVal) *big.Rat {
+		if v.Type == lisp.LInt {
+			return new(big.Rat).SetInt64(int64(v.Int))
+		}
+		return new(big.Rat).SetFloat64(v.Float) // nil for NaN / Inf
+	}
+	ra, rb := toRat(a), toRat(b)
+	if ra == nil || rb == nil {
+		fa, _ := lisp.GoFloat64(a)
+		fb, _ := lisp.GoFloat64(b)
+		switch {
+		case fa < fb:
+			return -1
+		case fa > fb:
+			return 1
+		}
+		return 0
+	}
+	return ra.Cmp(rb)
 }
 
 // Checks array members are of correct type
